@@ -68,7 +68,7 @@ def gen_cases(rng: random.Random, n: int, styles, kinds=None):
     from .props import c08
     out = []
     for k in range(n):
-        pool = list(kinds) if kinds else ["mask", "nonzero", "setitem", "setitem", "setitem_mask", "intindex", "cumsum", "where", "trilu", "broadcast_arrays", "creation", "setitem_int"]
+        pool = list(kinds) if kinds else ["mask", "nonzero", "setitem", "setitem", "setitem_mask", "intindex", "cumsum", "where", "trilu", "broadcast_arrays", "creation", "setitem_int", "argext"]
         kind = pool[k % len(pool)]
         rank = rng.choice([1, 1, 2, 2, 3])
         shape = tuple(rng.choice([1, 2, 3, 4]) for _ in range(rank))
@@ -305,6 +305,24 @@ def gen_cases(rng: random.Random, n: int, styles, kinds=None):
             out.append(Case(kind, (kind, via, rank, style, ndt), ["x", second], build, {"yv": line, "yn": line}, ref, (concrete, shape, style)))
             out[-1].maps = {"yv": {"x_values": "in0", second: "in1"}, "yn": {"x_null": "in0", second: "in1"}}
             out[-1].feed_names = {"yv": ["x_values", second], "yn": ["x_null", second]}
+        elif kind == "argext":
+            dt = rng.choice(INT_DTYPES[:-1])
+            is_max = rng.random() < 0.5
+            axis = rng.choice([None] + list(range(-rank, rank)))
+            kd = rng.random() < 0.5
+            def build(dims=dims, dt=dt, is_max=is_max, axis=axis, kd=kd):
+                x = ndx.array(shape=dims, dtype=impl.dt(dt))
+                return {"x": x}, {"y": (ndx.argmax if is_max else ndx.argmin)(x, axis=axis, keepdims=kd)}
+            def ref(feeds, is_max=is_max, axis=axis, kd=kd):
+                return {"y": np.asarray((np.argmax if is_max else np.argmin)(feeds["x"], axis=axis, keepdims=kd), dtype=np.int64)}
+            def concrete(rng, sh, dt=dt):
+                if 0 in sh:
+                    raise ValueError("empty")
+                info = np.iinfo(np.dtype(dt))
+                vals = [rng.choice([0, 1, 1, 2, 2, -1, -1, 3, int(info.max), int(info.min)]) for _ in range(int(np.prod(sh)))]      # many ties
+                return {"x": np.array([min(int(info.max), max(int(info.min), v)) for v in vals], dtype=dt).reshape(sh)}
+            out.append(Case(kind, (kind, rank, is_max, axis, kd, style, dt), ["x"], build,
+                            {"y": f"tg_render argext {int(is_max)} {CODE[dt]} {rank} {'~' if axis is None else axis} {int(kd)}"}, ref, (concrete, shape, style)))
         elif kind == "intindex":
             idt = rng.choice(INT_DTYPES[:-1])
             ishape = rng.choice([(), (0,), (1,), (3,), (2, 2)])
@@ -466,7 +484,10 @@ def run(ctx, n: int, styles=("static", "symbolic", "none"), label="scatter", kin
             for name in want:
                 r = ref[name]
                 if np.shape(res[name]) != np.shape(r) or not np.array_equal(res[name], r):
-                    ctx.violation(f"{c.kind}/{c.ident[-1]}/exported-model-differs-from-numpy",
+                    tag = c.ident[-1]
+                    if c.kind == "argext" and tag == "uint64" and feeds["x"].size and int(feeds["x"].max()) >= 2 ** 63:
+                        tag = "uint64-beyond-int64"      # the operand is routed through int64 (recorded finding)
+                    ctx.violation(f"{c.kind}/{tag}/exported-model-differs-from-numpy",
                                   f"{c.ident}: output {name} on {({k: v.tolist() for k, v in feeds.items()})} is {np.asarray(res[name]).tolist()}, NumPy gives {np.asarray(r).tolist()}",
                                   {"case": repr(c.ident), "feeds": {k: v.tolist() for k, v in feeds.items()}, "observed": np.asarray(res[name]).tolist(), "expected": np.asarray(r).tolist()})
                     continue
